@@ -107,6 +107,7 @@ Definition expect (mo : mon) (o : op) (r : outcome Z) : option (list (Z * Z * Z 
       else match r with
            | Ok id => if existsb (fun s => ms_reg s =? id) (mo_subs mo) then None
                       else Some ([], mkMon (mo_now mo) (mo_closed mo) (mo_subs mo ++ [mkMsub id true []]) (mo_pubs mo) (mo_clones mo) (mo_keys mo))
+           | Err IllegalState => keep      (* the command was refused (to-driver ring full): nothing is registered *)
            | _ => None
            end
   | Publish now share file =>
@@ -117,6 +118,7 @@ Definition expect (mo : mon) (o : op) (r : outcome Z) : option (list (Z * Z * Z 
                       | Some ks => Some ([], mkMon (mo_now mo) (mo_closed mo) (mo_subs mo) (mo_pubs mo ++ [(id, key)]) (mo_clones mo) ks)
                       | None => Some ([], mo)      (* outside: detected by the caller through bind_key again *)
                       end
+           | Err IllegalState => keep      (* refused command: nothing is registered *)
            | _ => None
            end
   | Avail now corr reg file =>
@@ -167,13 +169,15 @@ Definition expect (mo : mon) (o : op) (r : outcome Z) : option (list (Z * Z * Z 
   | CloseClient now =>
       if mo_closed mo then keep else
       Some (close_cbs (mo_subs mo), mkMon (mo_now mo) true (map close_msub (mo_subs mo)) (mo_pubs mo) (mo_clones mo) (mo_keys mo))
+  | Stall | Drain => keep        (* a full to-driver ring changes nothing the property talks about: in particular a subscription
+                                    dropped while the ring is full still has every image reported unavailable exactly once *)
   end.
 
 Definition op_now (mo : mon) (o : op) : Z :=
   match o with
   | Subscribe now | Publish now _ _ | Avail now _ _ _ | Unavail now _ _ | Tick now
   | DropSub now _ | DropPub now _ | CloseClient now => now
-  | Hold _ _ | Unhold _ => mo_now mo
+  | Hold _ _ | Unhold _ | Stall | Drain => mo_now mo
   end.
 
 (* the operation respects the domain in the monitor's current state *)
